@@ -38,69 +38,3 @@ Proof.
   rewrite rotate4_index by assumption. rewrite rotate4_comp_law.
   symmetry. apply rotate_transformation_law; assumption.
 Qed.
-
-(* ---------------------------------------------------------------------- *)
-(* polar_decompose (tie T): coq/gen/Gen_polar.v is regenerated on every run from the *)
-(* real pydrex.tensors.polar_decompose over the SVD oracle (translator/specs_tensors.py, *)
-(* `polar_translation`).  Both variants coincide -- as Leibniz-equal results, for ALL     *)
-(* matrices and all oracle outputs, no hypothesis -- with the hand-written models of       *)
-(* Model_decomp on which every polar theorem of C11 is stated.  A branch added to the      *)
-(* source (e.g. a fast path that skips the SVD) makes the translator fail closed or one of *)
-(* these two proofs stop compiling.                                                        *)
-(* ---------------------------------------------------------------------- *)
-From PV Require Import Model_decomp.
-From PV.gen Require Import Gen_polar.
-
-Lemma pair_eq2 {X Y} (a a' : X) (b b' : Y) : a = a' -> b = b' -> (a, b) = (a', b').
-Proof. intros -> ->; reflexivity. Qed.
-Lemma cons_eq2 {X} (a b : X) l1 l2 : a = b -> l1 = l2 -> a :: l1 = b :: l2.
-Proof. intros -> ->; reflexivity. Qed.
-Lemma mk_arr_eq (l l' : list R) : l = l' -> @mk_arr R 0 l = @mk_arr R 0 l'.
-Proof. intros ->; reflexivity. Qed.
-
-Ltac arr_ring tac := apply mk_arr_eq; repeat (apply cons_eq2; [ tac | ]); try reflexivity.
-
-Theorem polar_left_inst (M U S Vh : arr NumR) :
-  @k_polar_decompose_left NumR M U S Vh = @polar_left NumR U S Vh.
-Proof.
-  unfold k_polar_decompose_left, polar_left. cbv zeta.
-  cbv [matmul3 transpose3 diag3].
-  lazymatch goal with
-  | |- (mk_arr _ _, mk_arr _ _) = _ => idtac
-  | _ => fail "the generated k_polar_decompose_left is no longer ONE pair (U @ Vh, U @ diag(S) @ U^T): polar_decompose(left=True) has a new branch / another result"
-  end.
-  apply pair_eq2; arr_ring ltac:(cbv [mk_arr nth]; numR; ring).
-Qed.
-
-(* the generated definition keeps its shared subterms as `let`s: they are moved to the context
-   (no tactic mentions a generated name), the determinant is compared once by `ring`, then made
-   opaque so that `field` only sees it as a variable *)
-Ltac lift_let :=
-  match goal with
-  | |- (let x := ?t in @?f x) = ?r => let y := fresh "v" in pose (y := t); change (f y = r); cbv beta
-  end.
-Ltac subst_defs := repeat match goal with x := _ |- _ => subst x end.
-
-Theorem polar_right_inst (M U S Vh : arr NumR) :
-  @k_polar_decompose_right NumR M U S Vh = @polar_right NumR M S Vh.
-Proof.
-  cbv beta delta [k_polar_decompose_right]. repeat lift_let.
-  lazymatch goal with
-  | |- (if @neqb NumR _ _ then Err ValueError else _) = _ => idtac
-  | _ => fail "the generated k_polar_decompose_right is no longer `if det(U_m) == 0 then LinAlgError else (M @ inv(U_m), U_m)`: polar_decompose(left=False) has a new branch / another result"
-  end.
-  unfold polar_right, inv3. cbv zeta.
-  set (Um := matmul3 (transpose3 Vh) (matmul3 (diag3 S) Vh)).
-  match goal with
-  | |- (if @neqb NumR ?a _ then _ else _) = _ =>
-      assert (HH : @det3 NumR Um = a)
-        by (subst_defs; cbv [det3 matmul3 transpose3 diag3 mk_arr nth]; numR; ring);
-      rewrite HH; change (@neqb NumR a (@nzero NumR)) with (Reqb a 0);
-      destruct (Reqb a 0) eqn:E; [ reflexivity | apply Reqb_false in E; clear HH; clearbody a ]
-  end.
-  f_equal. apply pair_eq2.
-  - unfold matmul3 at 1.
-    arr_ring ltac:(subst_defs; cbv [matmul3 transpose3 diag3 mk_arr nth]; numR; field; exact E).
-  - subst Um. unfold matmul3 at 1.
-    arr_ring ltac:(subst_defs; cbv [matmul3 transpose3 diag3 mk_arr nth]; numR; ring).
-Qed.
